@@ -28,7 +28,7 @@ BOUNDS = {"quick": dict(keys="<=3 (unsorted and duplicated key lists included)",
 LIMITS = {"quick": dict(max_paths=400000, max_wall=500), "thorough": dict(max_paths=5000000, max_wall=3300)}
 FIDELITY = {"quick": "first", "thorough": "first"}
 WALL_BUDGET = {"quick": 560, "thorough": 3500}
-TASKS_PER_CHILD = 4
+TASKS_PER_CHILD = 1
 
 
 def canon(binding):
